@@ -71,6 +71,20 @@ def main():
         C = A.tocoo()
         return sorted(set(zip(C.row.tolist(), C.col.tolist())))
 
+    def stored_dense(A):
+        C = A.tocoo()
+        P = np.zeros(A.shape)
+        P[C.row, C.col] = 1.0
+        return P
+
+    def run_fast(fn, kvs, geo, tol):
+        import contextlib
+        import io
+        buf = io.StringIO()       # fastasm.cc logs through sys.stdout.write
+        with contextlib.redirect_stdout(buf):
+            A = fn(kvs, geo, tol=tol, verbose=1)
+        return A, buf.getvalue()[-400:]
+
     def make_geo(g, kvs):
         kind = g['kind']
         d = len(kvs)
@@ -180,20 +194,31 @@ def main():
                     K = assemble.stiffness(kvs, geo)
                     res['K'] = save(K.toarray())
                 if case.get('fast'):
-                    import contextlib
-                    import io
                     tol = case['fast']
-                    buf = io.StringIO()       # fastasm.cc logs through sys.stdout.write
-                    with contextlib.redirect_stdout(buf):
-                        Mf = assemble.mass_fast(kvs, geo, tol=tol, verbose=1)
+                    Mf, lg = run_fast(assemble.mass_fast, kvs, geo, tol)
                     res['Mf'] = save(Mf.toarray())
-                    res['Mf_log'] = buf.getvalue()[-400:]
+                    res['Mf_pat'] = save(stored_dense(Mf))
+                    res['Mf_log'] = lg
                     if case.get('stiffness'):
-                        buf = io.StringIO()
-                        with contextlib.redirect_stdout(buf):
-                            Kf = assemble.stiffness_fast(kvs, geo, tol=tol, verbose=1)
+                        Kf, lg = run_fast(assemble.stiffness_fast, kvs, geo, tol)
                         res['Kf'] = save(Kf.toarray())
-                        res['Kf_log'] = buf.getvalue()[-400:]
+                        res['Kf_pat'] = save(stored_dense(Kf))
+                        res['Kf_log'] = lg
+            elif k == 'fast':
+                # low-rank assembler against the generic one on identity-like geometries
+                kvs = tuple(KV(s) for s in case['spaces'])
+                geo = make_geo(case['geo'], kvs)
+                tol = case['tol']
+                res['M'] = save(assemble.mass(kvs, geo).toarray())
+                res['K'] = save(assemble.stiffness(kvs, geo).toarray())
+                Mf, lg = run_fast(assemble.mass_fast, kvs, geo, tol)
+                res['Mf'] = save(Mf.toarray())
+                res['Mf_pat'] = save(stored_dense(Mf))
+                res['Mf_log'] = lg
+                Kf, lg = run_fast(assemble.stiffness_fast, kvs, geo, tol)
+                res['Kf'] = save(Kf.toarray())
+                res['Kf_pat'] = save(stored_dense(Kf))
+                res['Kf_log'] = lg
             elif k == 'detinv':
                 X = np.array([[float.fromhex(h) for h in row] for row in case['X']]).reshape(case['shape'])
                 X = np.ascontiguousarray(X)
